@@ -422,6 +422,14 @@ def len_of_literal(c):
     return hits(c["a"]) > hits(c["b"])
 
 
+def sum_range_closed_form(c):
+    """sum(...) over a range / a comprehension over a range was replaced by a closed form (see F17-1)"""
+    def hits(t):
+        return sum(1 for n in _walk(t, ast.Call) if isinstance(n.func, ast.Name) and n.func.id == "sum" and n.args
+                   and any(isinstance(x, ast.Call) and isinstance(x.func, ast.Name) and x.func.id == "range" for x in ast.walk(n.args[0])))
+    return hits(c["a"]) > hits(c["b"])
+
+
 def hoist_writes_test_var(c):
     """a statement common to all branches was moved in front of the `if` although it writes a name the test reads"""
     for i in _removed_stmts(c["a"], c["b"], ast.If):
